@@ -17,7 +17,15 @@ func VerifC18Forward() {
 	known := vCase("known") == 1
 	pts := make([]*object.Point, 0, 3)
 	for i := int64(0); i < n; i++ {
-		p, err := object.NewPoint(vNondetFloat64(vN("lon", i)), vNondetFloat64(vN("lat", i)), vNondetFloat64(vN("alt", i)))
+		// the latitude is one of two concrete values (chosen per point): NewPoint's latitude arithmetic is
+		// then concrete, so that solver models replay natively; longitude and altitude are stored as given
+		lon, alt := vNondetFloat64(vN("lon", i)), vNondetFloat64(vN("alt", i))
+		lat := 12.5
+		if vChoice(vN("latsel", i), 2) == 1 {
+			lat = -33.25
+		}
+		vAssume(-180.0 <= lon && lon <= 180.0 && -1.0e6 <= alt && alt <= 1.0e6)
+		p, err := object.NewPoint(lon, lat, alt)
 		vAssume(err == nil)
 		pts = append(pts, p)
 	}
@@ -61,7 +69,9 @@ func VerifC18Inverse() {
 	known := vCase("known") == 1
 	pps := make([]*object.ProjectedPoint, 0, 3)
 	for i := int64(0); i < n; i++ {
-		pps = append(pps, &object.ProjectedPoint{X: vNondetFloat64(vN("x", i)), Y: vNondetFloat64(vN("y", i)), Alt: vNondetFloat64(vN("alt", i))})
+		x, y, alt := vNondetFloat64(vN("x", i)), vNondetFloat64(vN("y", i)), vNondetFloat64(vN("alt", i))
+		vAssume(-2.0e7 <= x && x <= 2.0e7 && -2.0e7 <= y && y <= 2.0e7 && -1.0e6 <= alt && alt <= 1.0e6)
+		pps = append(pps, &object.ProjectedPoint{X: x, Y: y, Alt: alt})
 	}
 	got, err := ConvertProjectedPointListToPointList(pps, code)
 	if !known && n > 0 {
